@@ -95,7 +95,8 @@ retry_fetch_lv:
     }
 
     if (target_border->get_key_length_at(lv_pos) <= sizeof(key_slice_type)) {
-        value* vp = lv_ptr->get_value();
+        bool lv_cleared{false};
+        value* vp = lv_ptr->get_value(lv_cleared);
         auto* v_body = static_cast<ValueType*>(value::get_body(vp));
         node_version64_body final_check = target_border->get_stable_version();
         if (final_check.get_vsplit() != v_at_fb.get_vsplit() ||
@@ -104,6 +105,10 @@ retry_fetch_lv:
         }
         if (final_check.get_vinsert_delete() !=
             v_at_fetch_lv.get_vinsert_delete()) {
+            goto retry_fetch_lv; // NOLINT
+        }
+        if (lv_cleared) {
+            // the entry is being removed concurrently (remove is not tracked by version).
             goto retry_fetch_lv; // NOLINT
         }
         out = std::make_pair(v_body, value::get_len(vp));
